@@ -178,6 +178,47 @@ static Prog make_program(vh::Rng& rng, std::string& descr) {
     return p;
 }
 
+// C09: nested hardware loops: depth 1..4, immediate / register counts, single-instruction repeats,
+// two-word last instructions, loop-frame store/restore, then idle
+static Prog make_loop_program(vh::Rng& rng, std::string& descr) {
+    Prog p;
+    const u32 MAIN = 0x0100;
+    p.org(0); p.br(MAIN);
+    p.org(MAIN);
+    p.mov_imm_reg(0x1000 + rng.below(0x100), 13);             // sp
+    unsigned depth = 1 + rng.below(4);
+    static const unsigned cnts[] = {0, 1, 2, 3, 1, 2, 0, 5};
+    descr = "loops" + std::to_string(depth);
+    // emit heads with placeholder end addresses, fix up afterwards
+    std::vector<u32> end_slot(depth);
+    std::vector<bool> is_imm(depth);
+    for (unsigned k = 0; k < depth; ++k) {
+        unsigned c = cnts[rng.below(8)];
+        if (depth <= 2 && rng.chance(1, 6)) c = 200 + rng.below(56);
+        if (rng.chance(1, 2)) { p.w(0x5C00 | c); end_slot[k] = p.at; p.w(0); }                    // bkrep #imm8, end
+        else if (rng.chance(1, 2)) { p.w(0x0023); p.w(c); p.w(0x8FDC); end_slot[k] = p.at; p.w(0); } // mov #c, r6 ; bkrep r6, end
+        else { p.mov_imm_reg(c, 5); p.w(0x5D00 | 5); end_slot[k] = p.at; p.w(0); }                  // mov #c, r5 ; bkrep r5, end
+        if (k + 1 < depth && rng.chance(1, 3)) p.inc(1);                                           // something before the inner loop
+    }
+    // innermost body
+    if (rng.chance(1, 3)) { unsigned r = rng.below(4); if (rng.chance(1, 2)) p.rep((u8)r); else { p.w(0x0023); p.w(r); p.w(0x0002); } }
+    p.inc(0);
+    if (rng.chance(1, 4)) { p.w(0x9468); p.w(0x5F48); }      // bkrepsto [sp] ; bkreprst [sp]: frame round trip inside the loop
+    if (rng.chance(1, 2)) p.modr_inc(2);
+    bool two = rng.chance(1, 3);
+    u32 inner_end;
+    if (two) { p.add_imm(1, 1); inner_end = p.at - 1; } else { inner_end = p.at - 1; }
+    p.words[end_slot[depth - 1]] = (u16)inner_end;
+    for (int k = (int)depth - 2; k >= 0; --k) {
+        if (rng.chance(1, 3)) p.nop();
+        p.modr_inc(3);
+        p.words[end_slot[k]] = (u16)(p.at - 1);
+    }
+    p.inc(1);
+    p.brr(-1);
+    return p;
+}
+
 struct Inst {
     std::unique_ptr<Teakra::Teakra> t;
     WriteLog log;
@@ -236,7 +277,7 @@ int main(int argc, char** argv) {
     long programs = a.n;
     for (long pi = 0; pi < programs; ++pi) {
         std::string descr;
-        Prog prog = make_program(rng, descr);
+        Prog prog = a.mode == "loops" ? make_loop_program(rng, descr) : make_program(rng, descr);
         unsigned total = rng.chance(1, 5) ? 300 + rng.below(3000) : 60 + rng.below(400);
         // slicings: one piece, single steps for a prefix then the rest, random slices, twos/threes
         std::vector<std::vector<unsigned>> slicings;
